@@ -28,7 +28,7 @@ WALL = {"quick": 1200, "thorough": 10800}
 MAX_TIMEOUTS = {"quick": 2, "thorough": 40}
 REQUIRED = {"geometric_checks": 300, "direction_checks": 150, "direction_checks_wrapped": 15, "distance_checks": 60,
             "cycle_checks": 40, "persistence_checks": 20, "sampled_distances": 20, "multi_restraint_runs": 10,
-            "regions_at_box_face": 15}
+            "regions_at_box_face": 15, "interleaved_molecule_names": 30}
 TOP = """[ defaults ]
 1 2 no 1.0 1.0
 [ atomtypes ]
@@ -114,13 +114,23 @@ def run_case(cid, rng, workdir):
     if lead:
         extra = "[ moleculetype ]\nW 1\n[ atoms ]\n1 A 1 WAT W 1 0.0\n"
         mols = ["W %d" % lead] + mols
+    # interleaved molecule names: the [ molecule ] block then names an index range that also covers molecules of
+    # another name, which the block must not touch
+    inter_w = 0
+    if mode not in ("pers", "cycle") and nm >= 2 and rng.random() < 0.4:
+        inter_w = rng.randint(1, 2)
+        if not lead:
+            extra = "[ moleculetype ]\nW 1\n[ atoms ]\n1 A 1 WAT W 1 0.0\n"
+        k = rng.randint(1, nm - 1)
+        mols = (["W %d" % lead] if lead else []) + ["M %d" % k, "W %d" % inter_w, "M %d" % (nm - k)]
+        bump(res, "interleaved_molecule_names")
     text = TOP.format(atoms="\n".join(atoms), bonds="\n".join(bonds), extra=extra, mols="\n".join(mols))
     with open(os.path.join(workdir, "c7.top"), "w") as fh:
         fh.write(text)
     small = mode in ("rw_small", "geom_edge")
     box = np.array([round(rng.uniform(3.0, 4.5), 3) for _ in range(3)]) if small else \
         np.array([round(rng.uniform(6.5, 9.0), 3) for _ in range(3)])
-    bl = ["[ molecule ]", "M %d %d" % (lead, lead + nm)]
+    bl = ["[ molecule ]", "M %d %d" % (lead, lead + nm + inter_w)]
     restr = []
     kw = {}
 
